@@ -131,7 +131,8 @@ impl ColorSpace {
             }
             "DeviceN" => {
                 let names = t!(Object::from_primitive(t!(get_index(&arr, 1)).clone(), resolve));
-                let alt = t!(Object::from_primitive(t!(get_index(&arr, 2)).clone(), resolve));
+                // the alternate space counts against the nesting budget like every other base space
+                let alt = Box::new(t!(ColorSpace::from_primitive_depth(t!(get_index(&arr, 2)).clone(), resolve, depth-1)));
                 let tint = t!(Function::from_primitive(t!(get_index(&arr, 3)).clone(), resolve));
                 let attr = arr.get(4).map(|p| Dictionary::from_primitive(p.clone(), resolve)).transpose()?;
 
